@@ -337,9 +337,20 @@ func TestModel(t *testing.T) {
 		defer cleanup()
 		steps := rapid.IntRange(5, 35).Draw(t, "steps")
 		lastWasPub := map[gen.Atom]bool{}
+		// swarm: each case has its own mixture of operation kinds
+		var bag []string
+		for _, k := range []string{"register", "publish", "delegate", "wrong", "sub", "unsub", "unregister", "unregister-foreign", "kill-producer", "kill-consumer"} {
+			wgt := rapid.SampledFrom([]int{0, 1, 1, 2, 4}).Draw(t, "weight")
+			if (k == "register" || k == "publish" || k == "sub") && wgt == 0 {
+				wgt = 2
+			}
+			for i := 0; i < wgt; i++ {
+				bag = append(bag, k)
+			}
+		}
 		for s := 0; s < steps; s++ {
 			w.step = s
-			op := rapid.SampledFrom([]string{"register", "publish", "publish", "publish", "publish", "delegate", "wrong", "sub", "sub", "sub", "unsub", "unregister", "unregister-foreign", "kill-producer", "kill-consumer"}).Draw(t, "op")
+			op := rapid.SampledFrom(bag).Draw(t, "op")
 			e := w.events[rapid.IntRange(0, 1).Draw(t, "event")]
 			switch op {
 			case "register":
@@ -546,7 +557,7 @@ func TestModel(t *testing.T) {
 			case "kill-consumer":
 				c := rapid.IntRange(0, len(w.consumers)-1).Draw(t, "consumer")
 				p := w.consumers[c]
-				if !p.alive || rapid.IntRange(0, 1).Draw(t, "really") != 0 {
+				if !p.alive {
 					continue
 				}
 				if p.node == w.b && kit.IsKnown("C18", sigRemoteLoss) {
@@ -902,6 +913,34 @@ func TestConcurrent(t *testing.T) {
 			inSnap := map[int]bool{}
 			for _, s := range sr.snapshot {
 				inSnap[s] = true
+			}
+			// no gap between what the subscriber was handed and what it is sent: the buffer is
+			// the state of the event as of the subscription, so the publisher's next message
+			// after the newest buffered one must be the first one delivered (local consumers:
+			// delivery is synchronous with the publication)
+			if consNode[sr.consumer] == a {
+				newest := map[int]int{}
+				for _, s := range sr.snapshot {
+					newest[s/100000] = s
+				}
+				// (a delivery decided under the consumer's previous subscription can still trickle
+				// in - deliveries are made outside the event's lock; those are not newer than the
+				// buffer, so only publications newer than the newest buffered one count)
+				first := map[int]int{}
+				for _, s := range live {
+					n, has := newest[s/100000]
+					if !has || s <= n {
+						continue
+					}
+					if f, ok := first[s/100000]; !ok || s < f {
+						first[s/100000] = s
+					}
+				}
+				for p, s := range newest {
+					if f, ok := first[p]; ok && f != s+1 {
+						fatalf("c%d was handed the buffer %v on subscribing and the first publication of publisher %d delivered afterwards is %d: %d..%d are neither in the buffer nor delivered", sr.consumer, sr.snapshot, p, f, s+1, f-1)
+					}
+				}
 			}
 			for _, pr := range published {
 				if pr.end > sr.callStart && pr.start < sr.retAt {
